@@ -19,12 +19,19 @@ def call(fn, timeout_s, *a, **kw):
     old = signal.signal(signal.SIGALRM, _handler)
     t0 = time.time()
     signal.setitimer(signal.ITIMER_REAL, timeout_s)
+    done = False
+    v = None
     try:
         try:
             v = fn(*a, **kw)
+            done = True
             signal.setitimer(signal.ITIMER_REAL, 0)
             return "ok", v, time.time() - t0
         except Watchdog:
+            if done:
+                # the alarm went off between the return of fn and the
+                # disarming of the timer: fn did finish
+                return "ok", v, time.time() - t0
             return "timeout", None, time.time() - t0
         except MemoryError as e:
             signal.setitimer(signal.ITIMER_REAL, 0)
